@@ -821,6 +821,28 @@ func init() {
 			}
 			return nil
 		},
+		"(*sync.Map).Clear": func(fr *frame, a []value) value {
+			delete(fr.i.syncMaps, a[0].(*value))
+			return nil
+		},
+		"(*sync.Map).LoadAndDelete": func(fr *frame, a []value) value {
+			if m := fr.i.syncMaps[a[0].(*value)]; m != nil {
+				if v := m.lookup(a[1]); v != nil {
+					m.delete(a[1])
+					return tuple{v, true}
+				}
+			}
+			return tuple{iface{}, false}
+		},
+		"(*sync.Map).Swap": func(fr *frame, a []value) value {
+			m := fr.i.syncMap(a[0].(*value))
+			v := m.lookup(a[1])
+			m.insert(a[1], a[2])
+			if v != nil {
+				return tuple{v, true}
+			}
+			return tuple{iface{}, false}
+		},
 		"(*sync.Map).Range": func(fr *frame, a []value) value {
 			if m := fr.i.syncMaps[a[0].(*value)]; m != nil {
 				for _, e := range fr.i.permute(m.live()) {
